@@ -1,3 +1,4 @@
+import ast
 import tokenize
 from pathlib import Path
 
@@ -10,6 +11,16 @@ from inline_snapshot._utils import simple_token
 from inline_snapshot._utils import value_to_token
 
 from ._utils import ignore_tokens
+
+
+def _is_string_literal(text):
+    try:
+        tree = ast.parse(text.strip(), mode="eval")
+    except SyntaxError:
+        return False
+    return isinstance(tree.body, ast.Constant) and isinstance(
+        tree.body.value, (str, bytes)
+    )
 
 
 class SourceFile:
@@ -25,8 +36,17 @@ class SourceFile:
     def _format(self, text):
         if self._source is None or enforce_formatting():
             return text
-        else:
-            return format_code(text, Path(self._source.filename))
+
+        if _is_string_literal(text):
+            # a formatter handles a lone string like a module docstring and
+            # changes its whitespace, format it as part of an assignment
+            prefix = "_ = "
+            result = format_code(prefix + text.strip(), Path(self._source.filename))
+            if result.startswith(prefix):
+                return result[len(prefix) :]
+            return text
+
+        return format_code(text, Path(self._source.filename))
 
     def asttokens(self):
         return self._source.asttokens()
